@@ -474,12 +474,18 @@ impl<F: Flavor> Sys<F> {
         if self.closed {
             for &(g, j) in &rp {
                 if !fresh(g, j, self.rmeta(g, j).unwrap()) {
-                    out.p("C11", "pending-not-woken", format!("the channel is closed but the pending receiver (group {}, slot {}) has not been woken through the waker of its latest poll", g, j));
+                    // stated by C11 ("after [close] ... every pending future has been woken") and by
+                    // C10 ("every pending future after close() has likewise been woken")
+                    for p in ["C11", "C10"] {
+                        out.p(p, "pending-not-woken", format!("the channel is closed but the pending receiver (group {}, slot {}) has not been woken through the waker of its latest poll", g, j));
+                    }
                 }
             }
             for &j in &sp {
                 if !fresh(GS, j, &self.ss[j].as_ref().unwrap().meta) {
-                    out.p("C11", "pending-not-woken", format!("the channel is closed but the pending sender of slot {} has not been woken through the waker of its latest poll", j));
+                    for p in ["C11", "C10"] {
+                        out.p(p, "pending-not-woken", format!("the channel is closed but the pending sender of slot {} has not been woken through the waker of its latest poll", j));
+                    }
                 }
             }
         } else {
